@@ -77,8 +77,11 @@ var thresholds = []thrSpec{
 	{"-1", true, []int{0}, 1}, {"0", false, []int{0}, 1},
 	// between the levels of concern of reference groups with one, two and three references (k / 25 000)
 	{"0.00005", false, []int{1}, 20000}, {"0.0001", false, []int{1}, 10000},
+	// thresholds that ARE the level of concern of a candidate value (51/25000, 7/100, 28/100, 2007/1000): a row whose
+	// level equals the threshold is shown
+	{"0.00204", false, []int{51}, 25000}, {"0.07", false, []int{7}, 100}, {"0.28", false, []int{28}, 100},
 	{"0.5", false, []int{1}, 2}, {"1", false, []int{1}, 1},
-	{"1.5", false, []int{3}, 2}, {"2", false, []int{2}, 1}, {"29", false, []int{29}, 1}, {"30", false, []int{30}, 1},
+	{"1.5", false, []int{3}, 2}, {"2", false, []int{2}, 1}, {"2.007", false, []int{2007}, 1000}, {"29", false, []int{29}, 1}, {"30", false, []int{30}, 1},
 	{"30.5", false, []int{61}, 2}, {"31", false, []int{31}, 1}, {"1000", false, []int{1000}, 1},
 	{"1000000000", false, []int{100000, 10000}, 1},
 }
@@ -99,7 +102,7 @@ func candidates(it outItem) []*big.Int {
 			out = append(out, x)
 		}
 	}
-	for _, v := range []int64{0, 0, 0, 1, 2, 7} {
+	for _, v := range []int64{0, 0, 0, 1, 2, 7, 7, 28, 51, 2007, 14, 55, 102, 2011, 25, 50} {
 		add(big.NewInt(v))
 	}
 	s := new(big.Rat).SetFloat64(it.Scale)
